@@ -20,6 +20,9 @@ pub enum Kind {
     PackedSpread(u32, u32, u16),
     /// a single set bit at the given fraction of the length
     Single(u16),
+    /// 2..6 zones of random lengths with their own densities drawn from {0, 1/200, 1/60, 1/30, 1/8, 1/2, 7/8, 29/30, 59/60, 1}
+    /// with irregular spacing: gives several long and short select superblocks (for ones and for zeros) in one vector
+    Zones,
     AllZero,
     AllOne,
 }
@@ -122,6 +125,35 @@ impl BitsSpec {
                             pos = end + rng.geometric(*mg as u64) as usize;
                         }
                     }
+                    Kind::Zones => {
+                        const DENS: [u32; 10] = [0, 328, 1092, 2185, 8192, 32768, 57344, 63351, 64444, 65536];
+                        let zones = 2 + rng.below(5) as usize;
+                        let mut cuts: Vec<usize> = (0..zones - 1).map(|_| rng.below(len as u64 + 1) as usize).collect();
+                        cuts.push(0);
+                        cuts.push(len);
+                        cuts.sort_unstable();
+                        for z in 0..zones {
+                            let (a, e) = (cuts[z], cuts[z + 1]);
+                            let p = DENS[rng.below(DENS.len() as u64) as usize];
+                            if p == 0 {
+                                continue;
+                            }
+                            if p >= 32768 {
+                                for i in a..e {
+                                    if rng.chance(p) {
+                                        b.set(i, true);
+                                    }
+                                }
+                            } else {
+                                let mean = (65536 / p as u64).max(1);
+                                let mut pos = a + rng.geometric(mean) as usize - 1;
+                                while pos < e {
+                                    b.set(pos, true);
+                                    pos += rng.geometric(mean) as usize;
+                                }
+                            }
+                        }
+                    }
                     Kind::PackedSpread(packed, spread, at) => {
                         if len > 0 {
                             let packed = (*packed as usize).min(len);
@@ -151,6 +183,7 @@ fn kind_strategy() -> BoxedStrategy<Kind> {
         3 => (prop_oneof![Just(1u32), 2u32..8, 8u32..200, 200u32..5000], prop_oneof![Just(1u32), 2u32..8, 8u32..200, 200u32..5000, 5000u32..100_000]).prop_map(|(a, b)| Kind::Clustered(a, b)),
         3 => (prop_oneof![Just(4096u32), Just(4097), Just(8192), 4000u32..4200, 1u32..9000], 0u32..40, any::<u16>()).prop_map(|(p, s, a)| Kind::PackedSpread(p, s, a)),
         1 => any::<u16>().prop_map(Kind::Single),
+        4 => Just(Kind::Zones),
         1 => Just(Kind::AllZero),
         1 => Just(Kind::AllOne),
     ]
@@ -173,7 +206,8 @@ pub fn len_strategy(max_len: usize) -> BoxedStrategy<usize> {
         options.push((4, (83_521usize..=max_len.min(140_000)).boxed()));
     }
     if max_len > 140_000 {
-        options.push((2, (140_000usize..=max_len).boxed()));
+        // room for two or more long superblocks (2 x 4096 items spaced >= 26 apart) next to short ones
+        options.push((3, (140_000usize..=max_len).boxed()));
     }
     proptest::strategy::Union::new_weighted(options).boxed()
 }
@@ -194,7 +228,7 @@ fn run_len() -> BoxedStrategy<u32> {
 }
 
 pub fn max_bits(tier: Tier) -> usize {
-    tier.pick(140_000, 2_000_000)
+    tier.pick(450_000, 2_000_000)
 }
 
 //-----------------------------------------------------------------------------
@@ -233,16 +267,31 @@ pub fn classify_bits(b: &Bits, classes: &mut Vec<String>) {
         }
         let mut long = false;
         let mut short = false;
+        let mut nlong = 0usize;
+        let mut long_after_short = false;
+        let mut short_after_long = false;
         let mut i = 0;
         while i < ones.len() {
             let start = ones[i];
             let limit = if i + 4096 < ones.len() { ones[i + 4096] } else { n };
             if limit - start >= log4 {
+                long_after_short |= short;
                 long = true;
+                nlong += 1;
             } else {
+                short_after_long |= long;
                 short = true;
             }
             i += 4096;
+        }
+        if nlong >= 2 {
+            classes.push(format!(">=2-long-superblocks({})", label));
+        }
+        if long_after_short {
+            classes.push(format!("long-after-short({})", label));
+        }
+        if short_after_long {
+            classes.push(format!("short-after-long({})", label));
         }
         if long {
             classes.push(format!("long-superblock({})", label));
